@@ -11,7 +11,7 @@ EXPLANATION = (
     "parameter named rng; (R3) every call of a repository function that has an `rng` parameter passes it, and command "
     "mains derive it from --seed; (R4) the generator stored by each set_rng is read on the model's step/sample path; "
     "(R5) a command that defines --seed and reaches a randomised callee uses it; (R6) no memoised function hands out "
-    "a stateful seed/generator object. Findings in the two legacy Gibbs samplers and the VI grid helper are listed "
+    "a stateful seed/generator object; (R7) nothing derived from a passed generator outlives the call (instance / class / module stores, memo through a caller's container); (R8) no seeding constructor receives None when the seed is 0. Findings in the two legacy Gibbs samplers and the VI grid helper are listed "
     "construct by construct in known_findings.json.")
 RULES = {
     "R1": "no process-global / process-dependent randomness source",
